@@ -210,9 +210,14 @@ type genCtx struct {
 	regs   int
 }
 
+// label names are prefixes of one another (L0_1, L0_11, L0_111, ...) for the first few labels of a
+// section: a resolver that matches names by prefix or substring picks the wrong one.
 func (g *genCtx) label() string {
 	g.labels++
-	return fmt.Sprintf("L%d_%d", g.cpIdx, g.labels)
+	if g.labels <= 5 {
+		return fmt.Sprintf("L%d_%s", g.cpIdx, strings.Repeat("1", g.labels))
+	}
+	return fmt.Sprintf("N%d_%d", g.cpIdx, g.labels)
 }
 
 func (g *genCtx) reg() string { return "r" + strconv.Itoa(g.rng.IntN(g.regs)) }
@@ -383,6 +388,14 @@ func generate(rng *rand.Rand, sync bool, maxLit uint64, share bool) *Program {
 				items = append(items, Item{Op: "mov", Args: []string{cnt, lit(rng, uint64(1+rng.IntN(4)))}})
 				items = append(items, Item{Label: l})
 				items = append(items, g.arith(1+rng.IntN(2), cnt)...)
+				if len(p.Macros) > 0 && rng.IntN(3) == 0 {
+					// a macro call inside the loop: the backward jump and the exit label lie across an expansion
+					// (macro bodies never touch the counter: they use r0/r1, the counter is kept above them)
+					if n, _ := strconv.Atoi(cnt[1:]); n >= 2 {
+						items = append(items, Item{Op: fmt.Sprintf("mac%d", rng.IntN(len(p.Macros))), Macro: true})
+						items = append(items, g.arith(1, cnt)...)
+					}
+				}
 				items = append(items, Item{Op: "dec", Args: []string{cnt}}, Item{Op: "jz", Args: []string{cnt, e}}, Item{Op: "j", Args: []string{l}}, Item{Label: e})
 				items = append(items, g.arith(1, "")...)
 			case 3: // conditional skip
@@ -420,6 +433,31 @@ func generate(rng *rand.Rand, sync bool, maxLit uint64, share bool) *Program {
 		} else {
 			h := g.label()
 			items = append(items, Item{Label: h}, Item{Op: "j", Args: []string{h}})
+		}
+		// alias labels: a second label directly in front of an existing one (both denote the same
+		// instruction); about half of the jumps to the original are retargeted to the alias
+		if rng.IntN(3) == 0 {
+			var out []Item
+			alias := map[string]string{}
+			for _, it := range items {
+				if it.Label != "" && it.Label != cp.Entry && rng.IntN(2) == 0 {
+					a := g.label()
+					alias[it.Label] = a
+					out = append(out, Item{Label: a})
+				}
+				out = append(out, it)
+			}
+			for i := range out {
+				if (out[i].Op == "j" || out[i].Op == "jz") && rng.IntN(2) == 0 {
+					last := len(out[i].Args) - 1
+					if a, ok := alias[out[i].Args[last]]; ok {
+						args := append([]string(nil), out[i].Args...)
+						args[last] = a
+						out[i].Args = args
+					}
+				}
+			}
+			items = out
 		}
 		cp.Items = items
 		p.CPs = append(p.CPs, cp)
